@@ -35,6 +35,7 @@ Not provable at full strength — the unchanged code violates the hypotheses, ne
 -/
 import OpenFGAVerif.Proofs.CacheTimeline
 import OpenFGAVerif.Gen.CacheCtl
+import OpenFGAVerif.Props.ReqClone
 
 namespace OpenFGAVerif.C11
 open OpenFGAVerif.CacheTimeline
